@@ -28,7 +28,7 @@ def run_workers(work, jobs, o):
             part = jobs[s::nsplit]
             jf, of = work / f'jobs_{li}_{s}.json', work / f'out_{li}_{s}.json'
             jf.write_text(json.dumps(part))
-            env = dict(os.environ, PYTHONPATH=f'/repo:{VERIF}', FGGS_VERIF='1', OMP_NUM_THREADS='1')
+            env = dict(os.environ, PYTHONPATH=f'{REPO}:{VERIF}', FGGS_REPO=str(REPO), FGGS_VERIF='1', OMP_NUM_THREADS='1')
             p = subprocess.Popen(['/venv/bin/python', *lv, str(VERIF / 'harness' / 'c11_worker.py'), str(jf), str(of), str(VERIF)],
                                  env=env, stdout=subprocess.PIPE, stderr=subprocess.PIPE, text=True)
             procs.append((p, part, of, s, li))
@@ -54,7 +54,7 @@ def cli_runs(work, a, idx):
         for method in ('newton', 'fixed-point'):
             r = {'sr': 'nat', 'out': 'ok', 'res': {}, 'hasgrad': True, 'grads': {}, 'tag': ['real', method, 'j' if jp else 'nj', 'float64', 'O2', 'bin/sum_product.py']}
             cmd = ['/venv/bin/python', '-OO', str(REPO / 'bin' / 'sum_product.py'), str(path), '-m', method, '-d', '-G'] + (['-j'] if jp else [])
-            env = dict(os.environ, PYTHONPATH='/repo', OMP_NUM_THREADS='1')
+            env = dict(os.environ, PYTHONPATH=str(REPO), OMP_NUM_THREADS='1')
             p = subprocess.run(cmd, capture_output=True, text=True, env=env, timeout=300)
             if p.returncode != 0:
                 r['out'] = 'raise:exit' + str(p.returncode)
